@@ -392,6 +392,14 @@ class Unifier:
         if isinstance(ret, ast.Call) and norm(ret.func) in ("np.rec.fromarrays", "numpy.rec.fromarrays") and ret.args and isinstance(ret.args[0], (ast.List, ast.Tuple)):
             arrs = ret.args[0].elts
             rows = None
+            norm_arrs = []
+            for a in arrs:
+                # X[seg] with seg a run (slice object) is X[seg.start:seg.stop]
+                if isinstance(a, ast.Subscript) and isinstance(a.slice, ast.Name):
+                    sl = ast.Slice(lower=ast.Attribute(value=a.slice, attr="start", ctx=ast.Load()), upper=ast.Attribute(value=a.slice, attr="stop", ctx=ast.Load()), step=None)
+                    a = ast.copy_location(ast.Subscript(value=a.value, slice=sl, ctx=ast.Load()), a)
+                norm_arrs.append(a)
+            arrs = norm_arrs
             for a in arrs:
                 if not (isinstance(a, ast.Subscript) and isinstance(a.slice, ast.Slice) and a.slice.lower is not None and a.slice.upper is not None):
                     return None
